@@ -1,7 +1,7 @@
 /-
 C02 — Termination cancels every coroutine payload and finishes its cleanup first.
 -/
-import CobaldVerif.Lemmas.RuntimeInv
+import CobaldVerif.Lemmas.RuntimeProgress
 
 namespace Cobald.Props.C02
 open Cobald Cobald.Runtime
@@ -78,6 +78,32 @@ theorem closing_uniform (s : St) (f : Flav) (hup : s.phase = .up)
     · right; rw [h]; simp
   simp [step, hup, hc]
 
+/-- **blocked threads never prevent termination**: the condition under which the closing steps
+end the run mentions coroutine payloads only - whatever state a thread payload is in, it is the
+same condition … -/
+theorem coQuiet_ignores_threads (s : St) (p : Nat) (x : PSt) (hthr : s.fl p = .thr) :
+    ({ s with pay := upd s.pay p x } : St).coQuiet ↔ s.coQuiet := by
+  unfold St.coQuiet St.coBusy
+  simp only [List.all_eq_true, upd_apply]
+  constructor <;> intro h q hq <;> have := h q hq <;> by_cases hqp : q = p
+  · subst hqp; simp [hthr, Flav.isCo]
+  · simpa [hqp] using this
+  · subst hqp; simp [hthr, Flav.isCo]
+  · simpa [hqp] using this
+
+/-- … and under it the run call ends after at most 8 closing steps -/
+theorem termination_despite_threads (s : St) (hr : Reach s) (hup : s.phase = .up) (hc : s.closing) (hq : s.coQuiet) :
+    ∃ es s' r, (es.all Ev.closingEv = true) ∧ run s es = some s' ∧ s'.phase = .ended r ∧ es.length ≤ 8 :=
+  closing_terminates s hr hup hc hq
+
+/-- **cancellation is always deliverable**: while the run is closing, a coroutine payload that is
+still running can be unwound (its runner is closed, then the framework's cancellation exception
+arrives), and an outcome that has not been looked at can be processed -/
+theorem cancellation_deliverable (s : St) (p : Nat) (hup : s.phase = .up) (hc : s.closing) (hco : (s.fl p).isCo = true) :
+    (s.pay p = .running → ∃ s1 s2, step s (.close (s.fl p)) = some s1 ∧ step s1 (.unwound p) = some s2 ∧ s2.pay p = .unwound) ∧
+    (∀ o, s.pay p = .ended o → ∃ s', step s (.record p) = some s' ∧ s'.pay p = .done o) :=
+  ⟨fun h => unwind_enabled s p hup hc h hco, fun o h => record_enabled s p o h⟩
+
 /-! ### non-vacuity -/
 
 def trace : List Ev :=
@@ -90,5 +116,9 @@ example : ((run St.init trace).map (fun s => (s.phase, s.pay 1, s.pay 2, s.pay 3
 -- the run cannot end while a coroutine payload has not finished its cleanup
 example : (run St.init ((trace.take 14) ++ [.rtaskEnd .aio, .rtaskEnd .trio, .rtaskEnd .thr, .gatherDone, .endRun .returned])).isNone = true := by
   decide +kernel
+
+-- the hypotheses of `termination_despite_threads` hold with a thread payload still running
+example : ((run St.init (trace.take 15)).map (fun s => (s.phase, decide s.closing, decide s.coQuiet, s.pay 3))) =
+    some (.up, true, true, .running) := by decide +kernel
 
 end Cobald.Props.C02
